@@ -1,5 +1,8 @@
 (* Checkers evaluated by the correspondence run of engine "preempt" (C07, C08).
-   kinds: 1 = model and implementation disagree (correspondence)
+   kinds: 1 = model and implementation disagree on who may be a victim / who may ask (correspondence for C07:
+              preconditions, potential victim sets, required node and quota candidate filters)
+          4 = model and implementation disagree on what is done with the candidates the implementation found
+              (correspondence for C08: guarantee check, chosen victims, ledger, quota shares and timing)
           2 = C07 oracle: a victim (or the asker) is not eligible / announced more or less than once
           3 = C08 oracle: guarantee, coverage, "nothing happens otherwise", quota bounds
           5 = the implementation panicked or the world could not be built
@@ -67,15 +70,19 @@ Definition obs_pv (w : world) (o : qobs) : pvs :=
   | None => []
   end.
 
-Definition queue_corr (w : world) (o : qobs) : bool :=
-  let pre := checkPreconditions w in
-  Bool.eqb (ob_pre o) pre &&
-  find_eqb (findVictims w) (ob_find o) &&
-  (if pre then
+Definition queue_corr07 (w : world) (o : qobs) : bool :=
+  Bool.eqb (ob_pre o) (checkPreconditions w) && find_eqb (findVictims w) (ob_find o).
+
+(* everything downstream is computed from the potential victims the implementation reported *)
+Definition queue_corr08 (w : world) (o : qobs) : bool :=
+  let pv := obs_pv w o in
+  (if ob_pre o then
      match ob_guar o, ob_try o with
      | Some g, Some t =>
-         Bool.eqb g (match findVictims w with Some pv => checkGuarantees w pv | None => false end) &&
-         (if exact_world w then existsb (outcome_eqb t) (tryPreemption w) else true)
+         Bool.eqb g (match ob_find o with Some _ => checkGuarantees w pv | None => false end) &&
+         (if exact_world w then
+            existsb (outcome_eqb t) (match ob_find o with Some _ => tryPreemptionPV true w pv | None => [failed] end)
+          else true)
      | _, _ => false
      end
    else match ob_guar o, ob_try o with None, None => true | _, _ => false end) &&
@@ -116,7 +123,7 @@ Definition queue_check1 (c : queue_case) : list N :=
   | QCCrash => [5%N]
   | QC w o =>
       if negb (wf_world w) then [6%N] else
-      kind (queue_corr w o) 1 ++ kind (c07_queue_ok w o) 2 ++ kind (c08_queue_ok w o) 3
+      kind (queue_corr07 w o) 1 ++ kind (queue_corr08 w o) 4 ++ kind (c07_queue_ok w o) 2 ++ kind (c08_queue_ok w o) 3
   end.
 Definition queue_check (cs : list queue_case) : list (N * N) := tagP 0 (indexedP 0 (map queue_check1 cs)).
 
@@ -124,15 +131,13 @@ Definition queue_check (cs : list queue_case) : list (N * N) := tagP 0 (indexedP
 Record robs := mkRObs { ro_marked : list N; ro_announced : list (list N); ro_preempting : list (N * ores); ro_triggered : bool }.
 Inductive reqnode_case := RC (w : world) (nid : N) (order : list N) (o : robs) | RCCrash.
 
-Definition reqnode_corr (w : world) (nid : N) (order : list N) (o : robs) : bool :=
-  match rn_try w nid order with
-  | None => false
-  | Some oc =>
-      let w' := apply_outcome w oc in
-      same_set (ro_marked o) (o_victims oc) && listlistN_eqb (ro_announced o) (announced oc) &&
-      preempting_agree (w_queues w') (ro_preempting o) &&
-      Bool.eqb (ro_triggered o) (k_triggered (w_ask w'))
-  end.
+Definition reqnode_corr07 (w : world) (nid : N) (order : list N) : bool := rn_order_ok w nid order.
+Definition reqnode_corr08 (w : world) (nid : N) (order : list N) (o : robs) : bool :=
+  let oc := rn_try_order w nid order in
+  let w' := apply_outcome w oc in
+  same_set (ro_marked o) (o_victims oc) && listlistN_eqb (ro_announced o) (announced oc) &&
+  preempting_agree (w_queues w') (ro_preempting o) &&
+  Bool.eqb (ro_triggered o) (k_triggered (w_ask w')).
 Definition c07_reqnode_ok (w : world) (nid : N) (o : robs) : bool :=
   all_victims w (reqnode_victim_eligible w nid) (ro_marked o ++ concat (ro_announced o)) &&
   announced_once (ro_marked o) (ro_announced o).
@@ -149,7 +154,7 @@ Definition reqnode_check1 (c : reqnode_case) : list N :=
   | RCCrash => [5%N]
   | RC w nid order o =>
       if negb (wf_world w) then [6%N] else
-      kind (reqnode_corr w nid order o) 1 ++ kind (c07_reqnode_ok w nid o) 2 ++ kind (c08_reqnode_ok w nid o) 3
+      kind (reqnode_corr07 w nid order) 1 ++ kind (reqnode_corr08 w nid order o) 4 ++ kind (c07_reqnode_ok w nid o) 2 ++ kind (c08_reqnode_ok w nid o) 3
   end.
 Definition reqnode_check (cs : list reqnode_case) : list (N * N) := tagP 100000 (indexedP 0 (map reqnode_check1 cs)).
 
@@ -201,63 +206,63 @@ Definition alloc_agree (qs : list queue) (obs : list (N * ores)) : bool :=
 Definition leaf_obs_for (ls : list lobs) (id : N) : option lobs :=
   match filter (fun l => N.eqb (lb_queue l) id) ls with l :: _ => Some l | [] => None end.
 
-(* one trigger on queue q: returns the new state and whether model and observation agree; the C08 quota oracle
-   part is evaluated separately on the observation *)
-Definition trigger_step (st : ustate) (qid : N) (whole : bool) (o : qsobs) : ustate * bool :=
+(* one trigger on queue q: returns the new state, whether model and observation agree on what was done (C08 side)
+   and whether the observed candidate lists are rearrangements of the filtered sets (C07 side) *)
+Definition trigger_step (st : ustate) (qid : N) (whole : bool) (o : qsobs) : ustate * bool * bool :=
   let w := us_w st in
   match find_queue (w_queues w) qid with
-  | None => (st, false)
+  | None => (st, false, true)
   | Some q =>
       let '(acq, t1) := tryAcquire (us_now st) q (time_get (us_t st) qid) in
-      if negb acq then (mkUS w (time_set (us_t st) qid t1) (us_now st), negb (so_acquired o) && negb (so_crash o))
+      if negb acq then (mkUS w (time_set (us_t st) qid t1) (us_now st), negb (so_acquired o) && negb (so_crash o), true)
       else
         let ts_done := time_set (us_t st) qid (quotaDone t1) in
         match quota_contexts w q with
-        | QCrash => (mkUS w ts_done (us_now st), so_acquired o && so_crash o)
+        | QCrash => (mkUS w ts_done (us_now st), so_acquired o && so_crash o, true)
         | QVal ctxs =>
             let top := setPreemptable w q in
             if whole && negb (q_leaf q) then
-              (* per leaf details are not visible: accept the marks that the filters allow, bounded by the contexts *)
+              (* per leaf details are not visible: the marks must be allowed by the filters of the contexts *)
               let allowed := flat_map (fun c => match find_queue (w_queues w) (fst c) with
                                                 | Some lq => map a_key (quota_filter w lq (snd c))
                                                 | None => [] end) ctxs in
-              let ok := so_acquired o && negb (so_crash o) && ores_eqb top (so_top o) &&
-                        forallb (fun k => existsb (N.eqb k) allowed) (so_marked o) in
+              let ok := so_acquired o && negb (so_crash o) && ores_eqb top (so_top o) in
+              let ok07 := forallb (fun k => existsb (N.eqb k) allowed) (so_marked o) in
               let vs := victims_of w (so_marked o) in
               let w1 := with_allocs (with_queues w (fold_left (inc_preempting w) vs (w_queues w))) (map (mark (so_marked o)) (w_allocs w)) in
-              (mkUS w1 ts_done (us_now st), ok)
+              (mkUS w1 ts_done (us_now st), ok, ok07)
             else
               let outs := map (fun c => match find_queue (w_queues w) (fst c), leaf_obs_for (so_leaves o) (fst c) with
                                         | Some lq, Some lo =>
-                                            match quota_leaf w lq (snd c) (lb_sorted lo) with
-                                            | Some out => Some (out, ores_eqb (snd c) (lb_pre lo) && ores_eqb (lo_claimed out) (lb_claimed lo))
-                                            | None => None
-                                            end
+                                            let out := quota_leaf_order w lq (snd c) (lb_sorted lo) in
+                                            Some (out, ores_eqb (snd c) (lb_pre lo) && ores_eqb (lo_claimed out) (lb_claimed lo),
+                                                  quota_order_ok w lq (snd c) (lb_sorted lo))
                                         | _, _ => None
                                         end) ctxs in
-              let good := forallb (fun x => match x with Some (_, b) => b | None => false end) outs in
-              let victims := flat_map (fun x => match x with Some (out, _) => lo_victims out | None => [] end) outs in
+              let good := forallb (fun x => match x with Some (_, b, _) => b | None => false end) outs in
+              let ok07 := forallb (fun x => match x with Some (_, _, b) => b | None => true end) outs in
+              let victims := flat_map (fun x => match x with Some (out, _, _) => lo_victims out | None => [] end) outs in
               let ok := so_acquired o && negb (so_crash o) && ores_eqb top (so_top o) && good &&
                         Nat.eqb (length ctxs) (length (so_leaves o)) && same_set victims (so_marked o) in
               let vs := victims_of w victims in
               let w1 := with_allocs (with_queues w (fold_left (inc_preempting w) vs (w_queues w))) (map (mark victims) (w_allocs w)) in
-              (mkUS w1 ts_done (us_now st), ok)
+              (mkUS w1 ts_done (us_now st), ok, ok07)
         end
   end.
 
-Definition quota_step_model (st : ustate) (op : qop) (o : qsobs) : ustate * bool :=
+Definition quota_step_model (st : ustate) (op : qop) (o : qsobs) : ustate * bool * bool :=
   let w := us_w st in
   match op with
   | QReconf qid mx gr delay =>
       match find_queue (w_queues w) qid with
-      | None => (st, false)
+      | None => (st, false, true)
       | Some q =>
           let t := time_get (us_t st) qid in
           let q' := set_limits mx gr q in
           let t' := setPreemptionTime (us_now st) q' (q_max q) (qt_delay t) (mkQT delay (qt_start t) (qt_running t)) in
-          (mkUS (with_queues w (upd_queue (fun _ => q') qid (w_queues w))) (time_set (us_t st) qid t') (us_now st), negb (so_crash o))
+          (mkUS (with_queues w (upd_queue (fun _ => q') qid (w_queues w))) (time_set (us_t st) qid t') (us_now st), negb (so_crash o), true)
       end
-  | QAdvance d => (mkUS w (us_t st) (us_now st + d), true)
+  | QAdvance d => (mkUS w (us_t st) (us_now st + d), true, true)
   | QUsage qid r enabled =>
       let ids := chain_ids w qid in
       let qs := map (fun q => if existsb (N.eqb (q_id q)) ids then set_alloc (Some (Add (q_alloc q) r)) q else q) (w_queues w) in
@@ -266,7 +271,7 @@ Definition quota_step_model (st : ustate) (op : qop) (o : qsobs) : ustate * bool
                                  | Some q => (fst it, incAllocatedTime (us_now st) enabled q (snd it))
                                  | None => it end
                                else it) (us_t st) in
-      (mkUS (with_queues w qs) ts (us_now st), true)
+      (mkUS (with_queues w qs) ts (us_now st), true, true)
   | QTrigger qid whole => trigger_step st qid whole o
   end.
 
@@ -310,11 +315,11 @@ Fixpoint quota_run (st : ustate) (steps : list (qop * qsobs)) : list N :=
   match steps with
   | [] => []
   | (op, o) :: rest =>
-      let '(st', ok) := quota_step_model st op o in
+      let '(st', ok, ok07) := quota_step_model st op o in
       let corr := ok && times_agree (us_now st') (us_t st') (so_times o) &&
                   alloc_agree (w_queues (us_w st')) (so_alloc o) &&
                   preempting_agree (w_queues (us_w st')) (so_preempting o) in
-      kind corr 1 ++ kind (c07_quota_ok (us_w st) o) 2 ++ kind (c08_quota_ok st op o) 3 ++ kind (negb (so_crash o)) 5 ++
+      kind ok07 1 ++ kind corr 4 ++ kind (c07_quota_ok (us_w st) o) 2 ++ kind (c08_quota_ok st op o) 3 ++ kind (negb (so_crash o)) 5 ++
       (if corr then quota_run st' rest else [])
   end.
 
